@@ -30,10 +30,30 @@ fn main() {
     }
     std::fs::create_dir_all(&out).unwrap();
     let mut ctx = Ctx::new(seed, tier, out, replay);
-    let ok = suites::run(&suite, &mut ctx);
-    if !ok {
-        eprintln!("unknown suite {suite}");
-        std::process::exit(2);
+    std::panic::set_hook(Box::new(|info| {
+        ctx::note_panic(info);
+        eprintln!("harness panic: {info}");
+    }));
+    let r = std::panic::catch_unwind(std::panic::AssertUnwindSafe(|| suites::run(&suite, &mut ctx)));
+    match r {
+        Ok(true) => {}
+        Ok(false) => {
+            eprintln!("unknown suite {suite}");
+            std::process::exit(2);
+        }
+        Err(_) => {
+            // A panic raised inside the implementation (first panic location outside the harness sources) on a generated
+            // history is reported as a concrete failing history of the property under check; a panic in the harness
+            // itself stays a broken run (exit 101).
+            match ctx::first_panic() {
+                Some((loc, msg)) if !loc.contains("harness/src") && !loc.contains("/rustc/") => {
+                    let tier_s = if matches!(ctx.tier, Tier::Quick) { "quick" } else { "thorough" };
+                    let replay = format!("{{\"suite\":{},\"seed\":{},\"tier\":\"{}\",\"panic_at\":{}}}", ctx::json_str(&suite), ctx.seed, tier_s, ctx::json_str(&loc));
+                    ctx.fail("*", "implementation-panic", format!("the implementation panicked at {loc}: {msg} (suite {suite}, seed {}, after {} operations)", ctx.seed, ctx.ops_count), replay);
+                }
+                _ => std::process::exit(101),
+            }
+        }
     }
     ctx.finish();
 }
